@@ -233,6 +233,9 @@ func runC15(r *simrt.Run, tier Tier) Outcome {
 	o.Aggregation, o.Lets, o.Funcs, o.Structured, o.Strings = false, false, false, false, false
 	o.NegWildcard = false
 	o.NoOrderCmp = true
+	// equalities that bind a variable and function expressions in heads belong to
+	// the documented fragment (positive Datalog with = and != premises)
+	o.EqBind, o.HeadFn = r.Bool("c15.eqbind"), r.Bool("c15.headfn")
 	recordedMode := r.OneIn(3, "c15.recorded")
 	if recordedMode {
 		// recorded mode also covers programs with transforms
